@@ -266,6 +266,9 @@ class OutgoingRIB(Cache):
                 prev_route_index,
                 None,
             )
+            # the route may also still be queued with the attributes of an earlier announce
+            for per_family in attr_af_nlri.values():
+                per_family.get(route_family, {}).pop(prev_route_index, None)
             # Also remove from _new_nlri since we're withdrawing it
             new_nlri.pop(route_index, None)
 
@@ -336,6 +339,13 @@ class OutgoingRIB(Cache):
         # Note: Cancel logic removed - announce does NOT cancel pending withdraw
         # This allows withdraw+announce sequences to both be sent
         # See plan/plan-announce-cancels-withdraw-optimization.md for future optimization
+
+        # the same route may already be queued under other attributes: both get sent, so make
+        # sure this one is sent after the one it replaces (groups are sent in insertion order)
+        prev_route = new_nlri.get(route_index, None)
+        if prev_route is not None and prev_route.attributes.index() != route_attr_index:
+            if route_attr_index in attr_af_nlri:
+                attr_af_nlri[route_attr_index] = attr_af_nlri.pop(route_attr_index)
 
         # add the route to the list to be announced
         attr_af_nlri.setdefault(route_attr_index, {}).setdefault(route_family, RIBdict({}))[route_index] = route
